@@ -246,6 +246,12 @@ func runC19(c *Ctx) {
 		}
 		if o.CDone {
 			everOK[s.name] = true // the client completed a handshake: a ticket may legitimately have been stored
+			// ... also by a connection that was cut right after its handshake (no echo, not a
+			// "success" below): a later resumption may descend from it, so the ticket lifetime counts
+			// from here at the latest
+			if _, ok := origin[s.name]; !ok {
+				origin[s.name] = clockOff
+			}
 		}
 		if !ok && offered {
 			// a failed resumption attempt makes the client throw the cached session away (RFC 5077 3.2)
